@@ -12,8 +12,9 @@ COMP_THEOREMS = ["PauLie.C01Comp." + t for t in [
     "C01_componentwise_full", "C01_componentwise_typeA_full"]] + ["PauLie.C01Star." + t for t in [
     "C01_typeA_full", "C01_from_C02_typeA_full", "TypeA.inv_clo", "TypeAL.inv_clo"]] + [
     "PauLie.C19.invOfClosure_soFib", "PauLie.C19.invOfClosure_of_blocks", "PauLie.C03.invOfClosure_perm_closed"]
-THEOREMS = CLOSURE_THEOREMS + ["PauLie.Tie.census_tie"] + N.EXTRA_THEOREMS + S.EXTRA_THEOREMS + COMP_THEOREMS + B.EXTRA_THEOREMS
-IMPORTS = CLOSURE_IMPORTS + ["PauLieVerif.Proofs.TieCensus"] + N.EXTRA_IMPORTS + S.EXTRA_IMPORTS + ["PauLieVerif.Properties.C01Comp", "PauLieVerif.Properties.C01CompFull", "PauLieVerif.Properties.C01StarFull"] + B.EXTRA_IMPORTS
+THEOREMS = CLOSURE_THEOREMS + ["PauLie.Tie.census_tie"] + N.EXTRA_THEOREMS + S.EXTRA_THEOREMS + COMP_THEOREMS + B.EXTRA_THEOREMS + [
+    "PauLie.C09Cert.C01_cert_dim", "PauLie.C09Cert.C09_cert_classify"]
+IMPORTS = CLOSURE_IMPORTS + ["PauLieVerif.Proofs.TieCensus"] + N.EXTRA_IMPORTS + S.EXTRA_IMPORTS + ["PauLieVerif.Properties.C01Comp", "PauLieVerif.Properties.C01CompFull", "PauLieVerif.Properties.C01StarFull"] + B.EXTRA_IMPORTS + ["PauLieVerif.Properties.C09Cert"]
 
 def batch_oracle(lines, outs):
     colls = [inputs_of(l) for l in lines]
